@@ -4,12 +4,16 @@ package vlib
 
 import (
 	"fmt"
+	"os"
+	"path/filepath"
 	"runtime"
 	"strings"
 	"testing"
 	"testing/synctest"
 	"time"
 )
+
+var hangCount int
 
 // BubbleResult describes how a synctest bubble ended.
 type BubbleResult struct {
@@ -66,7 +70,10 @@ func Bubble(t *testing.T, realTimeout time.Duration, f func()) BubbleResult {
 	case r := <-done:
 		return r
 	case <-tm.C:
-		return BubbleResult{Hung: true, Stacks: AllStacks()}
+		st := AllStacks()
+		hangCount++
+		os.WriteFile(filepath.Join(GetEnv().Out, fmt.Sprintf("hang-%d-%d.txt", GetEnv().Shard, hangCount)), []byte(st), 0o644)
+		return BubbleResult{Hung: true, Stacks: st}
 	}
 }
 
